@@ -1,6 +1,6 @@
-// instantiation TU for cxx2coq (C02, growth round 2): TreeSet member functions (pvRebalance decision prefix, Relocator::pvSplitNode)
+// instantiation TU for cxx2coq (C02, growth round 2): TreeSet member functions (pvRebalance decision prefix, Relocator::pvSplitNode, pvIsOrdered, AST facts of MergeTo / pvRebalance)
 #include "momo/TreeSet.h"
 namespace momo {
 typedef TreeSet<int, TreeTraits<int, false, TreeNode<32, 4, MemPoolParams<8>, true>, true>> InstSetR;
-void c02_inst_use_r() { InstSetR s; for (int i = 0; i < 100; ++i) s.Insert(i); while (!s.IsEmpty()) s.Remove(s.GetBegin()); }
+void c02_inst_use_r() { InstSetR s, d; for (int i = 0; i < 100; ++i) s.Insert(i); s.MergeTo(d); d.MergeTo(s); while (!s.IsEmpty()) s.Remove(s.GetBegin()); }
 }
